@@ -52,29 +52,29 @@ def model_jobs(tier):
     deep = 5 if q else 7
     jobs = []
     jobs.append(('required mechanism, one key, <=%d steps' % deep,
-                 dict(world='split', devs=[], steps=deep, focus=True, inv=('Transparent', 'TypeOK')), 'holds', None, 2, None))
+                 dict(world='split', devs=[], steps=deep, focus=True, inv=('Transparent', 'TypeOK')), 'holds', None, 1, None))
     for w in ('plain', 'split'):
         jobs.append(('mechanism of compiler.py, %s, one key, <=%d steps' % (w, deep),
                      dict(world=w, steps=deep, focus=True, emit='all', inv=('TransparentUpToDevs', 'KillHarmless', 'TypeOK', 'Emit')),
-                     'holds', 'gen-focus-%s.ndjson' % w, 2, None))
+                     'holds', 'gen-focus-%s.ndjson' % w, 1, None))
     jobs.append(('required mechanism, all keys interleaved, <=%d steps' % (2 if q else 3),
-                 dict(world='split', devs=[], steps=2 if q else 3, inv=('Transparent', 'TypeOK')), 'holds', None, 4, None))
+                 dict(world='split', devs=[], steps=2 if q else 3, inv=('Transparent', 'TypeOK')), 'holds', None, 1, None))
     jobs.append(('mechanism of compiler.py, all keys interleaved, <=%d steps' % (2 if q else 3),
                  dict(world='plain', steps=2 if q else 3, emit='all',
-                      inv=('TransparentUpToDevs', 'KillHarmless', 'TypeOK', 'Emit')), 'holds', 'gen-full.ndjson', 4, None))
+                      inv=('TransparentUpToDevs', 'KillHarmless', 'TypeOK', 'Emit')), 'holds', 'gen-full.ndjson', 1, None))
     jobs.append(('mechanism of compiler.py, program steps (Kill at every pc), one key, <=%d steps' % (3 if q else 4),
                  dict(world='split', steps=3 if q else 4, focus=True, grain='small',
-                      inv=('TransparentUpToDevs', 'KillHarmless', 'TypeOK')), 'holds', None, 2, None))
+                      inv=('TransparentUpToDevs', 'KillHarmless', 'TypeOK')), 'holds', None, 1, None))
     jobs.append(('required mechanism, program steps, one key, <=%d steps' % (3 if q else 4),
                  dict(world='split', devs=[], steps=3 if q else 4, focus=True, grain='small',
-                      inv=('Transparent', 'TypeOK')), 'holds', None, 2, None))
+                      inv=('Transparent', 'TypeOK')), 'holds', None, 1, None))
     if not q:
         jobs.append(('mechanism of compiler.py, broken file version, one key, <=5 steps',
                      dict(world='broken', steps=5, focus=True, emit='all',
-                          inv=('TransparentUpToDevs', 'KillHarmless', 'TypeOK', 'Emit')), 'holds', 'gen-focus-broken.ndjson', 2, None))
+                          inv=('TransparentUpToDevs', 'KillHarmless', 'TypeOK', 'Emit')), 'holds', 'gen-focus-broken.ndjson', 1, None))
         jobs.append(('mechanism of compiler.py, 3 codecs x 3 adbc x 4 file lists, one key, <=5 steps',
                      dict(world='split', steps=5, focus=True, emit='all', fl='FL4', adbcs=(0, 1, 2), codecs=('ber', 'der', 'uper'),
-                          inv=('TransparentUpToDevs', 'KillHarmless', 'TypeOK', 'Emit')), 'holds', 'gen-focus-wide.ndjson', 4, None))
+                          inv=('TransparentUpToDevs', 'KillHarmless', 'TypeOK', 'Emit')), 'holds', 'gen-focus-wide.ndjson', 1, None))
     # long unfocused histories by simulation
     n, d = (50, 8) if q else (1500, 12)
     for w in (('split',) if q else ('plain', 'split', 'broken')):
@@ -169,15 +169,25 @@ def concretise(c, rng, tier):
     sweep = None
     for j, s in enumerate(c['hist']):
         if s['op'] == 'kill':
-            if s['at'] in MARKER_AT:
+            first = j == 0 and c['mode'] == 'db'      # the call that creates the data base makes ~150 more writes
+            if s['at'] in MARKER_AT and s['at'] != 'called':
                 s['p'] = {'kind': 'marker', 'm': MARKER_AT[s['at']]}
-            else:
-                # the n-th write-class syscall of the call, not profiled: if the call makes fewer, it completes
-                first = j == 0 and c['mode'] == 'db'
-                if s['at'].startswith('storing'):
-                    n = rng.randrange(130, 175) if first else rng.randrange(1, 24)
+            elif s['at'] == 'called':
+                # killed before anything was stored: every earlier instant is equivalent for the model
+                m = rng.choice(['begin', 'get_begin', 'get_miss', 'parse_end', 'compile_end', 'sys', 'sys', 'delay'])
+                if m == 'sys':
+                    s['p'] = {'kind': 'sys', 'sys': rng.choice(['pwrite64'] * 5 + ['fdatasync', 'unlink']),
+                              'n': rng.randrange(1, 130) if first else rng.randrange(1, 4)}
+                    if s['p']['sys'] != 'pwrite64':
+                        s['p']['n'] = 1 + s['p']['n'] % (14 if first else 2)
+                elif m == 'delay':
+                    s['p'] = {'kind': 'delay', 'ms': rng.randrange(1, 250)}
                 else:
-                    n = rng.randrange(1, 130) if first else rng.randrange(1, 6)
+                    s['p'] = {'kind': 'marker', 'm': m}
+            else:
+                # during the store: the n-th write-class syscall of the call, not profiled -- if the call
+                # makes fewer, it completes and is judged as a call
+                n = rng.randrange(130, 175) if first else rng.randrange(1, 24)
                 s['p'] = {'kind': 'sys', 'sys': rng.choice(['pwrite64'] * 6 + ['fdatasync', 'unlink']), 'n': n}
                 if s['p']['sys'] != 'pwrite64':
                     s['p']['n'] = 1 + n % (16 if first else 4)
